@@ -5,6 +5,6 @@ func init() {
 		ID:          "C17",
 		Explanation: "Decided: (det) every iteration over a map or hash-ordered container in the packages that produce compiler output has order-insensitive effects (keyed stores, monotone accumulation, appends sorted before use, existence tests), no wall-clock/random/process-identity source is consulted there, and unstable sorts compare unique keys; (order) files, imports and sources are sorted before use. NOT decided: byte identity across processes as such (needs two runs), esbuild's determinism.",
 		Assumptions: []string{"slices and AST traversal are deterministic", "go/types reports objects in a deterministic order for identical inputs"},
-		Rules:       []RuleFunc{ruleDET("C17"), ruleC17Order, ruleC17SortKey, ruleC17NoPosOrder},
+		Rules:       []RuleFunc{ruleDET("C17"), ruleC17Order, ruleC17SortKey, ruleC17NoPosOrder, ruleC17SessionArchives},
 	})
 }
